@@ -875,6 +875,12 @@ func (g *dgen) method(svc *spec.Service, idx int) *spec.Method {
 		m.Responses = []*spec.Response{{Status: []int{204, 200, 202}[t.Draw("status-empty", 3)]}}
 	}
 	_ = status
+	for _, r := range m.Responses {
+		if t.Draw("code-inside-response", 4) == 0 {
+			r.CodeInside = true // the two spellings of a response's status code mean the same
+			g.feat("response:code-inside")
+		}
+	}
 	// ---- the service-level error, redeclared by name (its HTTP response stays the service's)
 	if g.svcLevelErr != "" && t.Draw("redeclare-service-error", 2) == 0 {
 		for _, e := range svc.Errors {
